@@ -665,6 +665,23 @@ def main():
         for rule, sig, msg in account(p, False, "harness-soup"):
             violations.append((p, False, rule, sig, msg, "harness-soup"))
 
+    # 2a. every low code point (and a selection of higher ones) at the borders of the source: whatever the binding or its
+    # wrapper does to the string before lexing (trimming, end-of-file markers, newline or Unicode normalization) shows
+    # as positions that no longer refer to the caller's string
+    cps = list(range(0, 0x530)) + list(range(0x2000, 0x2070)) + [0x85, 0xa0, 0x1680, 0x180e, 0x3000, 0xfb01, 0x212b, 0xfeff, 0xfffd, 0xfffe, 0xffff, 0x10000, 0x1f600, 0xe0001, 0x10ffff]
+    if tier != "quick":
+        cps += list(range(0x530, 0x3100)) + list(range(0xf900, 0x10000)) + list(range(0x1f000, 0x1f700))
+    borders = 0
+    for cp in sorted(set(cps)):
+        if 0xd800 <= cp <= 0xdfff:
+            continue
+        c = chr(cp)
+        for p in (c, "run;" + c, c + "run;", "x='a" + c + "';" + c + c, "e" + c + "\n" + c):
+            borders += 1
+            for rule, sig, msg in account(p, False, "border-code-point"):
+                violations.append((p, False, rule, sig, msg, "border-code-point"))
+    stats["labels"]["origin:border-code-point"] = borders
+
     # 2b. call histories: the payload returned for a string must describe *that* string, whatever was lexed before it.
     # A source and a same-length neighbour (one character inside a quoted literal changed) are passed as temporary
     # objects, so that the second one usually reuses the memory of the first; the contract is checked on what the
@@ -735,7 +752,7 @@ def main():
         "coverage": {
             "evaluations": stats["evaluations"],
             "distinct_nontrivial": len(stats["nontrivial"]),
-            "rule": "cases: construct-grammar programs and generated soups exported by the Rust harness (same generators as C01-C15), the real-world .sas files, Hypothesis text (fragment lists, weighted characters, arbitrary Unicode), all through the real extension module; plus the finite comparison of the committed enum/class modules with the build script's output; distinct = distinct source; non-trivial = the result has an error, a numeric/string payload, or the source has a non-ASCII character",
+            "rule": "cases: construct-grammar programs and generated soups exported by the Rust harness (same generators as C01-C15), the real-world .sas files, Hypothesis text (fragment lists, weighted characters, arbitrary Unicode), every code point below U+0530 and a selection of higher ones at the start / end / inside a literal of a small program, all through the real extension module; plus the finite comparison of the committed enum/class modules with the build script's output; distinct = distinct source; non-trivial = the result has an error, a numeric/string payload, or the source has a non-ASCII character",
             "samples": list(stats["samples"].values()),
             "exhaustive": False,
             "enum_files_compared": files_compared,
